@@ -94,6 +94,20 @@ def plan_C01(tier, seed):
             "assumptions": ["derivability oracle: naive least fixpoint over spans (spec/oracle.h), independent of yaep"]}
 
 
+def sge_jobs(b, ep):
+    """symbolic grammars with `error' for the recovery checks"""
+    sg = b.get("sge")
+    if not sg:
+        return []
+    jobs = []
+    for nr in range(1, sg["maxr"] + 1):
+        for l0 in range(0, sg["maxl"] + 1):
+            for ln in range(0, sg["maxlen"] + 1):
+                p = dict(ep); p.update({"sg": 1, "maxr": sg["maxr"], "maxl": sg["maxl"], "nrules": nr, "len0": l0, "len": ln})
+                jobs.append({"harness": "hRec.c", "params": p, "weight": (5 ** sg["maxl"]) ** nr * 2 ** ln})
+    return jobs
+
+
 def simple_plan(prop, harness, rule, assumptions, extra_params=None, sg_prop=None):
     def plan(tier, seed):
         b = BOUNDS[prop][tier]
@@ -106,6 +120,8 @@ def simple_plan(prop, harness, rule, assumptions, extra_params=None, sg_prop=Non
             jobs += near_jobs(harness, b["near_grammars"], b["near_edits"], ep)
         if sg_prop:
             jobs += sg_jobs(sg_prop, b)
+        if harness == "hRec.c":
+            jobs += sge_jobs(b, ep)
         w = dict(ep); w.update({"grammar": GIDX[b["grammars"][0]], "len": 3, "first": -1, "witness": 1})
         return {"jobs": jobs, "witness": [{"harness": harness, "params": w}], "bounds": b, "rule": rule + (SG_RULE if sg_prop else ""), "assumptions": assumptions}
     return plan
